@@ -271,10 +271,17 @@ def _info_shapes(E):
         "union_first": lambda: composite(E, "FeatureUnion", [a, b], "union"),
         "union_after_a_step": lambda: composite(E, "Pipeline", [c, composite(E, "FeatureUnion", [a, b], "union")], "pipe"),
         "union_of_one": lambda: composite(E, "Pipeline", [c, composite(E, "FeatureUnion", [a], "union")], "pipe"),
+        # a predictor fed the data columns directly: with several columns a "union" node collects them first
+        "regressor": lambda: models.new_estimator(E, "reg", "Reg", ("fit", "predict", "get_params", "set_params"), fitted=True,
+                                                  bases=("BaseEstimator", "RegressorMixin")),
+        "classifier": lambda: models.new_estimator(E, "clf", "Clf", ("fit", "predict", "predict_proba", "get_params", "set_params"), fitted=True,
+                                                   bases=("BaseEstimator", "ClassifierMixin")),
+        "regressor_after_a_step": lambda: composite(E, "Pipeline", [c, models.new_estimator(
+            E, "reg", "Reg", ("fit", "predict", "get_params", "set_params"), fitted=True, bases=("BaseEstimator", "RegressorMixin"))], "pipe"),
     }
 
 
-INFO_SHAPES = ["transformer", "pipeline_of_two", "union_first", "union_after_a_step", "union_of_one"]
+INFO_SHAPES = ["transformer", "pipeline_of_two", "union_first", "union_after_a_step", "union_of_one", "regressor", "classifier", "regressor_after_a_step"]
 
 
 @contract(V + "::_pipeline_info", "C16")
